@@ -655,8 +655,9 @@ def accept_returns(f: Fn) -> List[Tuple[ast.Return, tuple]]:
     return out
 
 
-def nonempty_branches(f: Fn, var: str) -> Set[int]:
-    """branch nodes on which len(var) == 0 is excluded"""
+def nonempty_branches(f: Fn, var: str, exactly: bool = False) -> Set[int]:
+    """branch nodes on which len(var) == 0 is excluded; exactly: ... and nothing else is (the branch is taken for *every* non-empty
+    value: `if v:`, `len(v) > 0`, `len(v) != 0` - not `len(v) == 1`, which also excludes the ambiguous verdicts)"""
     out = set()
     live = f.cfg.live()
     for b in f.cfg.nodes:
@@ -666,7 +667,7 @@ def nonempty_branches(f: Fn, var: str) -> Set[int]:
         if t is None:
             continue
         adm = t if b.pol else (set((0, 1, 2, 3)) - t)
-        if 0 not in adm:
+        if 0 not in adm and (not exactly or adm >= {1, 2, 3}):
             out.add(b.id)
     return out
 
@@ -1368,6 +1369,17 @@ def r02_5_kinds(ctx):
     r.done()
 
 
+def _const_concat(e: ast.AST) -> Optional[str]:
+    """a string constant, or a concatenation of string constants"""
+    v = const_str(e)
+    if v is not None:
+        return v
+    if isinstance(e, ast.BinOp) and isinstance(e.op, ast.Add):
+        a, b = _const_concat(e.left), _const_concat(e.right)
+        return None if a is None or b is None else a + b
+    return None
+
+
 def fresh_scalar_assignments(f: Fn, name: str) -> Set[int]:
     """cfg nodes of `name = yaml.ScalarNode(..)`: from there on the variable holds a node made here, which contains nothing"""
     out = set()
@@ -1629,7 +1641,7 @@ def r03_3_order_independence(ctx):
                     an = f.nid(acc_stmt[1])
                     # unconditional within the iteration: dominated by no branch that arises inside the loop
                     inner = [b for b in f.cfg.guard_nodes(an) if any(x is lo for x in _ancestors_list(b.ast))]
-                    inner = [b for b in inner if b.id not in nonempty_branches(f, vv)]
+                    inner = [b for b in inner if b.id not in nonempty_branches(f, vv, exactly=True)]
                     ok = not inner
                     ctx.extra.setdefault('_union_acc', acc_stmt[0])
         r.check(ok, 'every member verdict is merged into the accumulator unconditionally', f.key('member-accumulate'),
@@ -1652,7 +1664,7 @@ def r03_3_order_independence(ctx):
                     if a is not None:
                         an, cn = g.nid(a), g.nid(c)
                         inner = [b for b in g.cfg.guard_nodes(an) if b.id not in {x.id for x in g.cfg.guard_nodes(cn)}
-                                 and b.id not in nonempty_branches(g, vv)]
+                                 and b.id not in nonempty_branches(g, vv, exactly=True)]
                         ok = not inner
         r.check(ok, 'every subclass verdict is merged into the accumulator', g.key('class-accumulate'), g.loc(lo),
                 'a subclass verdict is not always merged into the result set')
@@ -2263,6 +2275,35 @@ def _children_collection(f: Fn, c: ast.Call, node_param: str):
                 key = val = True
                 continue
         return None
+    # ... or filled step by step: children.extend(node.value) in the sequence arm, children.append(key) / .append(value) (or
+    # .extend((key, value))) in a whole loop over the pairs in the mapping arm
+    lname = lo.iter.id
+    for m in f.walk():
+        if not (isinstance(m, ast.Call) and isinstance(m.func, ast.Attribute) and isinstance(m.func.value, ast.Name) and m.func.value.id == lname
+                and m.func.attr in ('append', 'extend') and len(m.args) == 1 and f.live(m)):
+            continue
+        g = f.guards(m)
+        a0 = m.args[0]
+        mloops = [l for l in enclosing_loops(m, f.node) if isinstance(l, ast.For)]
+        if m.func.attr == 'extend' and norm(a0) in (val_txt, 'list(%s)' % val_txt) and not mloops and known_instance(g, node_param, {'SequenceNode'}):
+            seq = True
+            continue
+        if mloops and norm(mloops[0].iter) == val_txt and whole_collection_loop(mloops[0]) and known_instance(g, node_param, {'MappingNode'}) \
+                and not [b for b in f.cfg.guard_nodes(f.nid(m)) if any(x is mloops[0] for x in _ancestors_list(b.ast))]:
+            t = mloops[0].target
+            if isinstance(t, ast.Tuple) and len(t.elts) == 2:
+                names = [norm(a0)] if m.func.attr == 'append' else ([norm(x) for x in a0.elts] if isinstance(a0, (ast.Tuple, ast.List)) else [])
+                key = key or norm(t.elts[0]) in names
+                val = val or norm(t.elts[1]) in names
+                continue
+            if isinstance(t, ast.Name) and m.func.attr == 'extend' and norm(a0) == t.id:
+                key = val = True
+                continue
+        if mloops and norm(mloops[0].iter) == val_txt and whole_collection_loop(mloops[0]) and known_instance(g, node_param, {'SequenceNode'}) \
+                and m.func.attr == 'append' and norm(a0) == norm(mloops[0].target):
+            seq = True
+            continue
+        return None
     return seq, key, val
 
 
@@ -2329,6 +2370,22 @@ def r04_5_strip_tags(ctx, rid='R04.5', keep_core=False):
             g = f.guards(n)
             v = const_str(n.value)
             inner_loop = enclosing_loops(n, f.node)
+            if v is None and isinstance(n.value, ast.Name) and not inner_loop:
+                # the plain tag was chosen per arm and is stored once: one definition per arm, each a constant under its kind test
+                ds = reaching_defs(f, n, n.value.id)
+                handled = bool(ds)
+                for d in ds:
+                    dv = _const_concat(d.value) if isinstance(d, ast.Assign) else None
+                    dg = f.guards(d)
+                    extra = [x for x in f.guard_texts(d) + f.guard_texts(n) if 'isinstance' not in x]
+                    if dv == CORE + 'seq' and known_instance(dg, node, {'SequenceNode'}) and not extra:
+                        seq_store = True
+                    elif dv == CORE + 'map' and known_instance(dg, node, {'MappingNode'}) and not extra:
+                        map_store = True
+                    else:
+                        handled = False
+                if handled:
+                    continue
             if known_instance(g, node, {'SequenceNode'}) and v == CORE + 'seq' and not inner_loop:
                 extra = [x for x in f.guard_texts(n) if 'isinstance' not in x]
                 seq_store = not extra
@@ -3026,7 +3083,8 @@ def r12_sinks(ctx):
                         and not f.guards(n_) and not enclosing_loops(n_, f.node):
                     v = n_.value
             fmt = const_str(v) if v is not None else 'yaml'
-        add = [norm(c) for c in f.calls('add_to_dumper')]
+        # (the class list may travel through a local bound once: named by what it is bound to)
+        add = ['add_to_dumper(%s)' % ', '.join(f.alpha.text(a_) for a_ in c.args) for c in f.calls('add_to_dumper') if not c.keywords]
         regs = sorted({(short_class(fi.module, c.args[0]), norm(c.args[1])) for c in f.calls('add_representer') if len(c.args) == 2})
         # registrations inherited from Dumper at module level are part of the effective table
         inherited = module_representers(P)
